@@ -276,7 +276,17 @@ def run(rep, tier, seed, replay=None):
     rc, wout = vh(binp, ['c04', 'witness'])
     w = dict((int(a), int(b)) for a, b in re.findall(r'WITNESS (\d) .*fails=(\d)', wout))
     rep.cov['known_finding_witnesses'] = {'output': [l for l in wout.split('\n') if l.startswith('WITNESS')], 'fails': w}
-    if len(w) != 4:
+    # ... and the NUMBERS of the model witnesses (Props/C04.v C04_flex_intrinsic_witness_values) must be the implementation's: Model/FlexFraction.v
+    # is not run by any correspondence, this replay is its only tie.  Witness 0: item target 1/2 at k = 1, 0 at k = 4 (one item: container
+    # width = item target).  Witness 1 (flex_shrink 0): item target -4 -> -24 next to a 20 -> 40 sibling: container width 16 at both scales.
+    wv = dict((int(a), (float(b), float(c))) for a, b, c in re.findall(r'WITNESS (\d) k=\S+ container_width orig=(\S+) scaled=(\S+)', wout))
+    expect = {0: (0.5, 0.0), 1: (16.0, 16.0)}
+    rep.cov['known_finding_witnesses']['model_values'] = {str(k): v for k, v in expect.items()}
+    for c, ev in expect.items():
+        if c in wv and wv[c] != ev:
+            rep.add_broken('correspondence', 'flex intrinsic witness %d: model values vs implementation' % c,
+                           'C04_flex_intrinsic_witness_values predicts container widths %r (original, scaled), the implementation gives %r' % (ev, wv[c]))
+    if len(w) != 4 or len(wv) != 4:
         rep.add_broken('search', 'vh c04 witness', wout[-500:])
     else:
         for c in (2, 3):
